@@ -220,13 +220,29 @@ def make_genB(tier):
 def make_genC(tier):
     """plant with start / shutdown ramp profiles on an hourly grid (one step = one main time unit)"""
     def gen(ch):
-        gj = dict(GRID_A["6xh"])
+        gsel = ch.pick("grid", ["6xh", "6x30min"])
+        gj = dict(GRID_A[gsel])
         g = Grid.from_json(gj)
         T = g.T
+        step_h = 1.0 if gsel == "6xh" else 0.5
         words = price_words(5, tier)
         w = ch.free("pword", words)
         prices = dict(p=[w[i % len(w)] for i in range(T)], fuelc=[4.0] * T)
         a = dict(type="Plant", name="pl", nodes=["n1"], price="fuelc", min_cap=2.0, max_cap=8.0)
+        if gsel != "6xh":   # half-hourly steps, main time unit h: the profiles are given per grid step (ramp_freq = grid frequency), as rates per hour
+            a["ramp_freq"] = "30min"
+        kindC = ch.free("kind", ["plant", "chp"])
+        heat_assets = []
+        if kindC == "chp":   # the profiles bound the virtual output power + factor x heat
+            a.update(type="CHPAsset", nodes=["n1", "nh"])
+            prices["heatp"] = [6.0, 1.0, 6.0, 1.0, 6.0, 6.0][:T]
+            heat_assets = [dict(type="SimpleContract", name="heat", nodes=["nh"], price="heatp", min_cap=-3.0, max_cap=0.0)]
+            cf = ch.pick("pl.conversion", [0.5, 1.0])
+            if cf != 1.0:
+                a["conversion_factor_power_heat"] = cf
+            sh = ch.pick("pl.max_share_heat", [None, 0.5])
+            if sh is not None:
+                a["max_share_heat"] = sh
         prof = ch.free("profiles", ["shutdown1", "start1", "both1", "shutdown2", "start2", "both_wide"])
         if prof in ("start1", "both1"):
             a.update(start_ramp_lower_bounds=[3.0], start_ramp_upper_bounds=[3.0])
@@ -247,18 +263,18 @@ def make_genC(tier):
         if rp is not None:
             a["ramp"] = rp
         ini = ch.pick("pl.initial", ["on_long", "off_long", "on1", "off1"])
-        a.update(initial_kwargs(ini, 1.0))
+        a.update(initial_kwargs(ini, step_h))
         if ini.startswith("on"):
             a["last_dispatch"] = ch.pick("pl.last_dispatch", [6.0, 3.0])
         R = ch.pick("pl.min_runtime", [0, 2])
         if R:
-            a["min_runtime"] = float(R)
+            a["min_runtime"] = float(R) * step_h
         sc = ch.pick("pl.start_costs", [0.0, 7.0])
         if sc:
             a["start_costs"] = sc
-        assets = [dict(type="SimpleContract", name="mkt", nodes=["n1"], price="p", min_cap=-15.0, max_cap=15.0), a]
+        assets = [dict(type="SimpleContract", name="mkt", nodes=["n1"], price="p", min_cap=-15.0, max_cap=15.0)] + heat_assets + [a]
         scn = S.finish(gj, assets, prices)
-        scn["meta"] = dict(initial=ini, R=R, kind="profiles", profiles=prof)
+        scn["meta"] = dict(initial=ini, R=R, kind="profiles", profiles=prof, unit=kindC, step_h=step_h)
         return scn
     return gen
 
@@ -269,7 +285,7 @@ def run_partC(case):
     meta = scn["meta"]
     a = [x for x in scn["assets"] if x["name"] == "pl"][0]
     tags = S.feature_tags(scn) + ["partC", "initial:" + meta["initial"], "profiles:" + meta["profiles"]]
-    ctag = ["profiles:" + meta["profiles"], "initial:" + meta["initial"][:2]] + (["derated"] if isinstance(a["max_cap"], dict) else [])
+    ctag = ["profiles:" + meta["profiles"], "initial:" + meta["initial"][:2], "unit:" + meta.get("unit", "plant")] + (["derated"] if isinstance(a["max_cap"], dict) else [])
     res = dict(status="ok", violations=[], counters={})
     V = res["violations"]
     run = ImplRun(scn, solver="SCIPY", want_output=False)
@@ -278,8 +294,9 @@ def run_partC(case):
     g = Grid.from_json(scn["grid"])
     nS = len(a.get("start_ramp_lower_bounds") or [])
     nD = len(a.get("shutdown_ramp_lower_bounds") or [])
-    init = uc.initial_state(uc.steps(a.get("time_already_running", 0), 1.0), uc.steps(a.get("time_already_off", 0), 1.0))
-    R = uc.steps(a.get("min_runtime", 0), 1.0) + nS + nD
+    sh = meta.get("step_h", 1.0)
+    init = uc.initial_state(uc.steps(a.get("time_already_running", 0), sh), uc.steps(a.get("time_already_off", 0), sh))
+    R = uc.steps(a.get("min_runtime", 0), sh) + nS + nD
     best = {}
     for reading in ("strict", "lenient"):
         b = None
